@@ -2,6 +2,7 @@
 from rules import misc as M
 from rules import tables as T
 from rules import filtering as FL
+from rules import operators as OP
 
 
 def run(ctx):
@@ -10,6 +11,8 @@ def run(ctx):
     ctx.run(M.tbl3_comparison_registry)
     ctx.run(T.tbl17_constant_translation_is_inverse)
     ctx.run(FL.flw23_filter_exactly_once)
+    ctx.run(OP.who5_in_place_operators)
+    ctx.run(OP.tbl19_connectives_and_null)
     return ctx.finish(
         'Static rules: the string dictionary is sorted before indices are assigned (range '
         'predicates run on dictionary indices), a codec op is declared order-/summation-preserving '
